@@ -1,3 +1,81 @@
-import OptreeModel.Model.Eval
+/-
+  C05  tree_map family calls the function once per leaf, in order, on aligned arguments.
+
+  `treeMapGen` is ops.py's `tree_map*` line by line (Model/Ops.lean); the statements below are about
+  that model, for every tree, every list of rests, every user function and every configuration.
+  What `flattenUpTo` returns per leaf (the subtree at the leaf's path) is C07's subject; what
+  `unflatten` builds is C01's.
+-/
+import OptreeModel.Model.Ops
+
 namespace Optree
+
+theorem callAll_log_ok (f : UserFn) (args : List (List Arg)) (i : Nat) (acc : List PyObj)
+    (log : List (List Arg)) (rs : List PyObj) (h : (callAll f i args acc log).1 = .ok rs) :
+    (callAll f i args acc log).2 = log.reverse ++ args ∧ rs.length = acc.length + args.length := by
+  induction args generalizing i acc log with
+  | nil =>
+    simp only [callAll, Except.ok.injEq] at h
+    subst h
+    simp [callAll]
+  | cons a as ih =>
+    cases hr : f i a with
+    | error e => simp [callAll, hr] at h
+    | ok r =>
+      simp only [callAll, hr] at h ⊢
+      obtain ⟨h1, h2⟩ := ih (i + 1) (r :: acc) (a :: log) h
+      exact ⟨by simp [h1], by simp [h2]; omega⟩
+
+/-- **Once per leaf, in order.**  When the mapped function never raises, the call log is exactly the
+list of argument tuples, one per leaf in flatten order, and there are as many results as calls. -/
+theorem C05_calls_in_order (f : UserFn) (args : List (List Arg)) (rs : List PyObj)
+    (h : (callAll f 0 args [] []).1 = .ok rs) :
+    (callAll f 0 args [] []).2 = args ∧ rs.length = args.length := by
+  have := callAll_log_ok f args 0 [] [] rs h
+  simpa using this
+
+/-- the calls made before a failure are a prefix of the argument tuples (no call is skipped or
+repeated), and the failing call is the last one logged -/
+theorem C05_calls_prefix (f : UserFn) (args : List (List Arg)) (i : Nat) (acc : List PyObj)
+    (log : List (List Arg)) :
+    ∃ k, (callAll f i args acc log).2 = log.reverse ++ args.take k := by
+  induction args generalizing i acc log with
+  | nil => exact ⟨0, by simp [callAll]⟩
+  | cons a as ih =>
+    unfold callAll
+    split
+    · exact ⟨1, by simp⟩
+    · rename_i r _
+      obtain ⟨k, hk⟩ := ih (i + 1) (r :: acc) (a :: log)
+      exact ⟨k + 1, by rw [hk]; simp⟩
+
+/-- **A rest that is not a suffix fails before `f` is called at all** (the error is whatever
+`flatten_up_to` raised: a `ValueError` by C07), for all six variants. -/
+theorem C05_prefix_failure_before_calls (cfg : Cfg) (variant : MapVariant) (inplace : Bool)
+    (f : UserFn) (t : PyObj) (rests : List PyObj) (ls : List PyObj) (sp : Spec) (e : Err)
+    (hflat : flatten cfg t = .ok (ls, sp))
+    (hwp : ∃ ps ls', flattenWithPath cfg t = .ok (ps, ls', sp))
+    (hrest : rests.mapM (flattenUpTo cfg.reg sp) = .error e) :
+    (treeMapGen cfg variant inplace f t rests).result = .error e ∧
+    (treeMapGen cfg variant inplace f t rests).log = [] := by
+  unfold treeMapGen
+  cases variant
+  · simp [hflat, hrest]
+  · obtain ⟨ps, ls', hp⟩ := hwp
+    simp [hp, hrest]
+  · simp [hflat, hrest]
+
+/-- the underscore variants return the original tree object -/
+theorem C05_inplace_returns_tree (cfg : Cfg) (variant : MapVariant) (f : UserFn) (t : PyObj)
+    (rests : List PyObj) (r : PyObj)
+    (h : (treeMapGen cfg variant true f t rests).result = .ok r) : r = t := by
+  unfold treeMapGen at h
+  simp only at h
+  repeat' split at h
+  all_goals first
+    | (simp at h; done)
+    | (simp at h; exact h.symm)
+    | skip
+  all_goals simp_all
+
 end Optree
